@@ -301,11 +301,12 @@ class ValueGen:
         self.rng = rng
         self.plain = plain_strings
         self.free_optionals = free_optionals     # optional fields independently None (any object the constructor accepts)
+        self.minimal = False                     # obj_minimal: every optional absent, every free-length string / array as short as its declaration allows
 
     def gstr(self, n=None, maxn=6, chunked=False):
         rng = self.rng
         if n is None:
-            n = rng.choice([0, 1, 2, 3, rng.randrange(0, maxn + 1)])
+            n = 0 if self.minimal else rng.choice([0, 1, 2, 3, rng.randrange(0, maxn + 1)])
         pool = [0x41, 0x62, 0x20, 0x79, 0x50, 0x4F, 0x22, 0x7D, 0xE9] if self.plain else EDGE_STR
         return [rng.choice(pool) if rng.random() < 0.6 else rng.randrange(0x21, 0x7E) for _ in range(n)]
 
@@ -333,6 +334,14 @@ class ValueGen:
             return self.obj(ty['name'], self.R.structs[ty['name']]['body'], depth + 1)
         raise ValueError(ty)
 
+    def obj_minimal(self, cls, body):
+        """the instance of cls that writes as little as its declaration allows (optionals absent, free-length strings and arrays empty)"""
+        self.minimal = True
+        try:
+            return self.obj(cls, body)
+        finally:
+            self.minimal = False
+
     def obj(self, cls, body, depth=0):
         fields = []
         self.walk(cls, body, fields, {}, depth, {'none': False, 'root': body})
@@ -359,7 +368,7 @@ class ValueGen:
                     v = {'s': [ord(c) for c in i['text']]} if ty['k'] == 'str' else ({'i': int(i['text'])} if ty['k'] == 'int' else {'b': i['text'] == 'true'})
                 else:
                     optional = str(a.get('optional', '')).lower() == 'true'
-                    if optional and ((st['none'] and not self.free_optionals) or rng.random() < 0.4):
+                    if optional and (self.minimal or (st['none'] and not self.free_optionals) or rng.random() < 0.4):
                         st['none'] = True
                         fields.append([name, None])
                         env[name] = None
@@ -377,7 +386,7 @@ class ValueGen:
                             off = int(li.get('offset', 0))
                             mx = IMAX[li['type']] + off
                             top = mx if (self.boundary_lengths and mx <= 260 and rng.random() < 0.1) else None      # now and then the largest length the field can carry
-                            v = {'s': self.gstr(top if top is not None else rng.randrange(max(off, 0), max(off, 0) + min(mx, 6) + 1))}
+                            v = {'s': self.gstr(max(off, 0) if self.minimal else (top if top is not None else rng.randrange(max(off, 0), max(off, 0) + min(mx, 6) + 1)))}
                     else:
                         v = self.value(ty, depth)
                 fields.append([name, v])
@@ -386,21 +395,21 @@ class ValueGen:
                 name = a['name']
                 ty = self.R.rtype(a['type'])
                 optional = str(a.get('optional', '')).lower() == 'true'
-                if optional and ((st['none'] and not self.free_optionals) or rng.random() < 0.4):
+                if optional and (self.minimal or (st['none'] and not self.free_optionals) or rng.random() < 0.4):
                     st['none'] = True
                     fields.append([name, None])
                     continue
                 ln = a.get('length')
                 if ln is None:
-                    n = rng.choice([0, 1, 2, 3])
+                    n = 0 if self.minimal else rng.choice([0, 1, 2, 3])
                 elif ln.isdigit():
                     n = int(ln)
                 else:
                     li = lens[ln]['attrs']
                     off = int(li.get('offset', 0))
                     mx = IMAX[li['type']] + off
-                    n = rng.randrange(max(off, 0), max(off, 0) + min(mx, 4) + 1)
-                    if self.boundary_lengths and mx <= 260 and depth == 0 and rng.random() < 0.1 and ty['k'] in ('int', 'bool', 'enum'):
+                    n = max(off, 0) if self.minimal else rng.randrange(max(off, 0), max(off, 0) + min(mx, 4) + 1)
+                    if not self.minimal and self.boundary_lengths and mx <= 260 and depth == 0 and rng.random() < 0.1 and ty['k'] in ('int', 'bool', 'enum'):
                         n = mx                                                      # ... or the largest element count
                 n = min(n, 3) if depth > 1 and ln is None else n
                 fields.append([name, {'l': [self.value(ty, depth + 1) for _ in range(n)]}])
